@@ -1,7 +1,7 @@
 """Adapters for USLP primary headers, truncated headers and transfer frames."""
 from __future__ import annotations
 
-from .core import outcome, octs
+from .core import outcome, octs, after_pack
 from .probe import decode_other
 
 
@@ -40,10 +40,13 @@ def op_hdr_rt(a):
     def run():
         o = mk_hdr(h)
         raw = o.pack()
-        d = _hdr_cls(h["trunc"]).unpack(bytes(raw) + bytes(a["sfx"]))
-        decode_other(f"uslp.hdr:{int(bool(h['trunc']))}", _hdr_cls(h["trunc"]).unpack)
-        return {"octets": octs(raw), "len": o.len(), "dec": proj_hdr(d), "dlen": d.len(), "repack": octs(d.pack()),
-                "htype": int(determine_header_type(bytes(raw)) == HeaderType.TRUNCATED)}
+
+        def rest():
+            d = _hdr_cls(h["trunc"]).unpack(bytes(raw) + bytes(a["sfx"]))
+            decode_other(f"uslp.hdr:{int(bool(h['trunc']))}", _hdr_cls(h["trunc"]).unpack)
+            return {"octets": octs(raw), "len": o.len(), "dec": proj_hdr(d), "dlen": d.len(), "repack": octs(d.pack()),
+                    "htype": int(determine_header_type(bytes(raw)) == HeaderType.TRUNCATED)}
+        return after_pack(raw, rest)
     return outcome(run)
 
 
@@ -116,9 +119,12 @@ def op_frame_rt(a):
         tr = bool(f["hdr"]["trunc"])
         raw = fr.pack(truncated=tr, frame_type=_ftype(a["ftype"]))
         n = fr.len()
-        d = TransferFrame.unpack(bytes(raw), _ftype(a["ftype"]), mk_props(matching(f, a["ftype"], len(raw))))
-        return {"octets": octs(raw), "len": n, "flen": -1 if tr else int(fr.header.frame_len), "dec": proj_frame(d),
-                "dlen": d.len(), "repack": octs(d.pack(truncated=tr, frame_type=_ftype(a["ftype"])))}
+
+        def rest():
+            d = TransferFrame.unpack(bytes(raw), _ftype(a["ftype"]), mk_props(matching(f, a["ftype"], len(raw))))
+            return {"octets": octs(raw), "len": n, "flen": -1 if tr else int(fr.header.frame_len), "dec": proj_frame(d),
+                    "dlen": d.len(), "repack": octs(d.pack(truncated=tr, frame_type=_ftype(a["ftype"])))}
+        return after_pack(raw, rest)
     return outcome(run)
 
 
